@@ -140,6 +140,21 @@ func (r *c02run) attack(dir int, op SOp) {
 			return
 		}
 		sortBytes(keys)
+		// every key disclosed so far is tried (the last one through the common path below)
+		rcv0 := 1 - dir
+		for i, k := range keys {
+			if i == op.L%len(keys) || i >= 60 {
+				continue
+			}
+			fb := append(append([]byte{}, raw[:hl]...), ref.BuildData(raw[:hl], d.Flags, d.SenderKeyID, d.RecipKeyID, d.NextDH, d.Ctr+uint64(op.F%2), d.Enc, k, nil)...)
+			before := len(w.Q[rcv0])
+			c0 := w.Receive(rcv0, ref.Armor(fb))
+			w.Q[rcv0] = w.Q[rcv0][:before]
+			if s.hasEffect(c0) {
+				r.o.Fail("C02/accepted-forge-disclosed-key", "%s acted on a data message authenticated with a MAC key that had been disclosed on the wire (key pair sender %d / recipient %d): plaintext=%v", w.P[rcv0].Name, d.SenderKeyID, d.RecipKeyID, c0.HasPl)
+				return
+			}
+		}
 		k := keys[op.L%len(keys)]
 		rebuild(d.Flags, d.SenderKeyID, d.RecipKeyID, d.NextDH, d.Ctr+uint64(op.F%2), d.Enc, k)
 		class = "forge-disclosed-key"
@@ -313,6 +328,49 @@ func runC02(sc *SessScript) *sim.Outcome {
 			o.Class("rekey")
 		default:
 			s.Exec(op)
+		}
+	}
+	// final sweep: nothing authenticated with a MAC key disclosed on the wire is accepted, for the key ids in current use
+	if o.Violation == "" {
+		var keys [][]byte
+		for k := range s.Obs.Disclosed {
+			keys = append(keys, []byte(k))
+		}
+		sortBytes(keys)
+		if len(keys) > 40 {
+			keys = keys[len(keys)-40:]
+		}
+		for rcv := 0; rcv < 2 && o.Violation == ""; rcv++ {
+			if !s.W.P[rcv].C.IsEncrypted() {
+				continue
+			}
+			var last *ref.ObsMsg
+			for i := len(s.Seen) - 1; i >= 0; i-- {
+				if m := s.Seen[i]; m.From != rcv && m.Data != nil && m.Verified {
+					last = m
+					break
+				}
+			}
+			if last == nil {
+				continue
+			}
+			hdr := last.Raw[:last.Hdr.Len]
+			d := last.Data
+			for _, k := range keys {
+				for _, ids := range [][2]uint32{{d.SenderKeyID, d.RecipKeyID}, {d.SenderKeyID, d.RecipKeyID + 1}, {d.SenderKeyID + 1, d.RecipKeyID}} {
+					fb := append(append([]byte{}, hdr...), ref.BuildData(hdr, 0, ids[0], ids[1], d.NextDH, d.Ctr+1000, d.Enc, k, nil)...)
+					before := len(s.W.Q[rcv])
+					c0 := s.W.Receive(rcv, ref.Armor(fb))
+					s.W.Q[rcv] = s.W.Q[rcv][:before]
+					if s.hasEffect(c0) {
+						return o.Fail("C02/accepted-forge-disclosed-key", "%s acted on a data message authenticated with a MAC key that had been disclosed on the wire earlier (sender key %d, recipient key %d)", s.W.P[rcv].Name, ids[0], ids[1])
+					}
+				}
+			}
+			if len(keys) > 0 {
+				o.Class("final-disclosed-key-sweep")
+				r.hits++
+			}
 		}
 	}
 	o.NonTrivial = r.hits > 0
